@@ -327,7 +327,7 @@ fn hole_values(kind: &str, thorough: bool) -> Vec<(String, Variable, &'static st
             }
             v.into_iter().map(|i| (int_lit(i), Variable::Int(i), "int")).collect()
         }
-        "idx" => [0i64, 1, -1, 2, 3, -4].into_iter().map(|i| (int_lit(i), Variable::Int(i), "int")).collect(),
+        "idx" => [0i64, 1, -1, 2, -2, 3, -3, -4].into_iter().map(|i| (int_lit(i), Variable::Int(i), "int")).collect(),
         "len" => [0i64, 2, -1].into_iter().map(|i| (int_lit(i), Variable::Int(i), "int")).collect(),
         "bool" => vec![("true".into(), Variable::Bool(true), "bool"), ("false".into(), Variable::Bool(false), "bool")],
         _ => unreachable!(),
@@ -491,7 +491,12 @@ pub fn run(tier: &str) -> i32 {
                                 ("<<", "OverflowShift") | (">>", "OverflowShift") => !(0..=63).contains(b),
                                 _ => false,
                             });
-                        let by_index = kind == "IndexOutOfBounds" && lit_kind("idx");
+                        // an index literal justifies a parse-time failure only if it really is out of range
+                        let array_len: i64 = match tpl.name { "array-index" => 3, "array-literal-index" => 2, _ => i64::MAX };
+                        let idx_out_of_range = tpl.holes.iter().enumerate().any(|(i, h)| {
+                            *h == "idx" && mask & (1 << i) != 0 && matches!(job.vals[i].1, Variable::Int(v) if v < -array_len || v >= array_len)
+                        });
+                        let by_index = kind == "IndexOutOfBounds" && lit_kind("idx") && idx_out_of_range;
                         let by_len = kind == "NegativeLength" && lit_kind("len");
                         by_op || by_index || by_len
                     }
